@@ -6,7 +6,7 @@ reamber/algorithms/{utils/dominant_bpm.py, analysis/scroll_speed.py, generate/sv
 against the declarative `Reamber/Spec/Analysis.lean` (the same definitions the driver evaluates on the
 implementation's output).
 -/
-import Reamber.Lemmas.Analysis
+import Reamber.Lemmas.AnalysisSpeed
 import Reamber.Generated.Analysis
 
 namespace Reamber.Analysis
@@ -348,6 +348,44 @@ theorem scroll_speed_nosv_spec_partial (bpms : List Tp) (svs : List Sv) (omin om
     simp [speedOf, optMul, hv]
   · right
     simpa [speedOf] using h
+
+/-- a row that carries `active bpm / ref` (or lies before every tempo point) passes the executable row check -/
+theorem rowOkB_noSv_of (bpms : List Tp) (svs : List Sv) (ref : Rat) (y : Rat × Option Rat)
+    (h : (∃ p, IsActiveTp bpms y.1 p ∧ y.2 = some (p.bpm / ref * 1)) ∨ (∀ p ∈ bpms, y.1 < p.time)) :
+    rowOkB false bpms svs ref y = true := by
+  unfold rowOkB
+  rcases h with ⟨p, hp, hv⟩ | h
+  · rw [hv, Bool.or_eq_true]
+    right
+    simp only [allowedSpeeds, List.contains_iff_mem, List.mem_flatMap]
+    exact ⟨p, mem_activeTps.mpr hp, by simp⟩
+  · rw [activeTps_nil_of_before h]
+    rfl
+
+/-- **scroll_speed_nosv_spec** — games without SVs, in full: the reference is the override or a dominant bpm,
+the result's offsets are exactly the breakpoints (tempo times ∪ {first, last stacked offset}) and every value
+at or after a tempo point is `active bpm / reference`: the executable specification `speedOkB` — the one the
+driver evaluates on the implementation's output — holds on the model's output, for every chart. -/
+theorem scroll_speed_nosv_spec (bpms : List Tp) (svs : List Sv) (omin omax : Rat) (ov : Option Rat)
+    (hne : bpms ≠ []) (hd : (bpms.map (·.time)).Nodup) (hL : ∀ p ∈ bpms, p.time ≤ omax)
+    (hov : ∀ b, ov = some b → b ≠ 0) :
+    ∃ ref out, scrollSpeed false bpms svs omin omax ov = some out ∧ IsRef bpms omax ov ref ∧
+      speedOkB false bpms svs omin omax ref out = true := by
+  obtain ⟨ref, out, hout, href, hrows⟩ := scroll_speed_nosv_spec_partial bpms svs omin omax ov hne hd hL hov
+  refine ⟨ref, out, hout, href, ?_⟩
+  obtain ⟨ref', _, hout'⟩ := scroll_speed_ref_partial false bpms svs omin omax ov hne hd hL hov
+  rw [hout'] at hout
+  simp only [Option.some.injEq] at hout
+  simp only [speedOkB, Bool.and_eq_true, decide_eq_true_eq, List.all_eq_true]
+  refine ⟨?_, fun y hy => rowOkB_noSv_of bpms svs ref y (hrows y hy)⟩
+  unfold breakpoints
+  apply groupKeys_congr
+  intro t
+  have hfst : out.map (·.1) = (bpmFrame bpms omin omax).map (·.1) := by
+    rw [← hout, speedFrame_noSv]
+    simp [List.map_map, Function.comp_def, speedOf]
+  rw [hfst, mem_fst_bpmFrame]
+  simp
 
 /-- D28 on the model: the tempo frame of `[(0, 100), (1000, 200)]` with the last stacked offset at 1000. The
 arrangement `arr` is a permutation of the frame's rows and is sorted by offset — a legitimate result of an
